@@ -85,7 +85,7 @@ def run_case(spec):
                             v.count('steps_interrupted_by_signal')
                         break
         n = rng.randint(10, 30 if tier == 'quick' else 45)
-        weights = [6, 4, 3, 4, 3, 3, 3, 2, 1, 1, 2, 1]
+        weights = [6, 4, 3, 4, 3, 3, 3, 3, 2, 1, 2, 1]
         for _ in range(n):
             op = rng.choices(OPS, weights=weights)[0]
             if S.exited and op in ('cont', 'stepi', 'step', 'next', 'finish') and rng.random() < 0.7:
@@ -133,13 +133,14 @@ def run_case(spec):
                 # a watchpoint on a local / argument of the current function: it owns an internal end-of-scope breakpoint,
                 # which is a documented internal patch only while such a watchpoint exists
                 S.tolerate_extra_int3 = True
-                r = S.cmd('watch_expr', expr=rng.choice(['x', 'x', 'a']), cond=rng.choice(['w', 'rw']))
-                if 'ok' in r:
-                    local_wps.add(r['ok']['num'])
-                    wps.append(r['ok']['num'])
-                    v.count('local_watchpoints')
-                else:
-                    v.count('failing_commands')
+                for name in rng.sample(['x', 'a'], k=rng.choice([1, 2, 2])):   # two locals of one scope share one end-of-scope breakpoint
+                    r = S.cmd('watch_expr', expr=name, cond=rng.choice(['w', 'rw']))
+                    if 'ok' in r:
+                        local_wps.add(r['ok']['num'])
+                        wps.append(r['ok']['num'])
+                        v.count('local_watchpoints')
+                    else:
+                        v.count('failing_commands')
                 S.tolerate_extra_int3 = bool(local_wps)
                 if not local_wps:
                     S.cmd('bps')        # a refused request must leave no patch: strict text check right now
@@ -153,10 +154,11 @@ def run_case(spec):
                         v.count('failing_commands')
             elif op == 'unwatch':
                 if wps:
-                    num = wps.pop(rng.randrange(len(wps)))
-                    local_wps.discard(num)
-                    S.tolerate_extra_int3 = bool(local_wps)
-                    S.cmd('unwatch_num', num=num)
+                    for _ in range(len(wps) if rng.random() < 0.5 else 1):
+                        num = wps.pop(rng.randrange(len(wps)))
+                        local_wps.discard(num)
+                        S.tolerate_extra_int3 = bool(local_wps)
+                        S.cmd('unwatch_num', num=num)
             elif op == 'restart':
                 local_wps.clear()
                 r = S.cmd('restart', timeout=180)
